@@ -83,7 +83,7 @@ def plan_for(tier: str, seed: int, i: int) -> dict:
     if version != "v3" and mrng.random() < 0.25:
         prior = mrng.choice(["old-comm", "public0", proto["community"] + "2", proto["community"][:-1] or "p"])
     return {"prop": ID, "proto": proto, "mib": sorted(mib.items()), "op": op, "behaviour": beh, "with_error": with_error,
-            "prior_community": prior,
+            "prior_community": prior, "error_index_kind": mrng.choice(["first", "first", "zero", "beyond"]),
             "target": rng.randrange(0, 4), "arb": rng.choice([0, 1, -1, 2**31 - 1, -(2**31), 12345]), "clock": clock}
 
 
@@ -124,7 +124,9 @@ def _run(plan: dict, clock: dict, behaviour: str, with_prior: bool = True) -> di
         if st["n"] != plan["target"] or behaviour in ("echo", "disco_msgid") or resp["es"] != 0:
             return resp
         if plan.get("with_error"):
-            resp = dict(resp, es=2, ei=1 if req["pdu"]["vbs"] else 0, vbs=list(req["pdu"]["vbs"]))
+            nvb = len(req["pdu"]["vbs"])
+            ei = {"first": 1 if nvb else 0, "zero": 0, "beyond": nvb + 1 + plan["target"]}[plan.get("error_index_kind", "first")]
+            resp = dict(resp, es=2, ei=ei, vbs=list(req["pdu"]["vbs"]))
             st["with_error"] = True
         if behaviour == "community":
             req["out_community"] = prior.encode("ascii") if prior else req["community"] + b"x"
